@@ -304,8 +304,8 @@ add("C12", "TestC12", race=True, note_current=True,
     quick={"checks": 2500, "shards": 4, "timeout": 900, "gomaxprocs": 8,
            "extra": [{"test": "TestC12Churn", "checks": 60, "shards": 2, "plain": True}]},
     thorough={"checks": 40000, "shards": 16, "timeout": 3300, "gomaxprocs": 8,
-              "extra": [{"test": "TestC12Churn", "checks": 600, "shards": 4, "plain": True}]},
-    floors={"kind=jsonvalues": 0.003, "flood": 0.002, "ops:reuse-after-nonroot-removal": 0.4, "kind=reader": 0.05, "kind=conc": 0.01, "churn>=65536": 0.005},
+              "extra": [{"test": "TestC12Churn", "checks": 1500, "shards": 8, "plain": True}]},
+    floors={"kind=jsonvalues": 0.003, "flood": 0.001, "ops:reuse-after-nonroot-removal": 0.4, "kind=reader": 0.05, "kind=conc": 0.01, "churn>=65536": 0.002},
     assumptions=["ID uniqueness is checked within one case (the check is a pure function of the case); across cases the atomic counter is "
                  "exercised by the concurrent arm under the race detector",
                  "the post-EOF Read goes slightly beyond what Transform does (it never re-reads after a terminal result)"])
